@@ -25,6 +25,8 @@ def judge(case):
                                             module_cls=sg.nn.Module if case.get("form", "fn") != "fn" else None)
     if info.get("accepted") and not viol and info.get("rows") is not None:
         viol += gradcheck.check_twice(runner, arrays, cat.diff_idx(case, arrays), name, info["rows"])
+        if case.get("form", "fn") == "fn" and case["op"] not in ("dropout", "batch_norm"):
+            viol += gradcheck.check_freeze(lambda ts: cat.run_lib(case, arrays, None, ts_override=ts)[0], arrays, cat.diff_idx(case, arrays), name, info["rows"])
     nt = bool(info.get("accepted") and info.get("nonzero"))
     return {"nontrivial": nt, "outcome": "accepted" if info.get("accepted") else "rejected", "violations": viol}
 
